@@ -37,7 +37,7 @@ def scratch_copy(patch_path):
     return d
 
 
-def run_check(prop, repo, extra=(), timeout=900):
+def run_check(prop, repo, extra=(), timeout=3000):
     env = dict(os.environ)
     env.pop("VERIF_CHILD", None)
     env["VERIF_REPO"] = repo
